@@ -223,7 +223,7 @@ def static_lookup(cls, name):
 # ----------------------------------------------------------------------------
 # attribute access
 
-STR_METHODS = {'startswith', 'endswith', 'encode', 'split', 'join', 'format', 'strip', 'lower',
+STR_METHODS = {'isascii', 'startswith', 'endswith', 'encode', 'split', 'join', 'format', 'strip', 'lower',
                'upper', 'replace', 'lstrip', 'rstrip', 'splitlines', 'isdigit', 'find', 'count',
                'title', 'capitalize', 'rsplit', 'partition', 'isupper', 'islower'}
 BYTES_METHODS = {'decode'}
@@ -1392,6 +1392,40 @@ def install(E):
         return I.T(Val.VBytes(r))
     M[_b64.b64encode] = m_b64encode
 
+    import binascii as _binascii
+    import datetime as _dt
+
+    def m_b64decode(E, args, kw):
+        """base64.b64decode (axiom B64): TypeError for what is neither bytes nor str,
+        ValueError for a str with non-ASCII characters, binascii.Error for invalid
+        Base64; otherwise the decoded bytes (uninterpreted)"""
+        a = E.lift(args[0])
+        isb, iss = Val.is_VBytes(a), Val.is_VStr(a)
+        E.fail_if(z3.Not(z3.Or(isb, iss)), TypeError, 'argument should be a bytes-like object or ASCII string')
+        ascii_ = z3.Function('StrIsAscii', vals.STR, z3.BoolSort())
+        E.fail_if(z3.And(iss, z3.Not(ascii_(Val.s(a)))), ValueError,
+                  'string argument should contain only ASCII characters')
+        okf = z3.Function('spec_b64_decodes', vals.VS, z3.BoolSort())
+        E.fail_if(z3.Not(okf(a)), _binascii.Error, 'Incorrect padding')
+        f = z3.Function('spec_b64_val', vals.VS, vals.VS)
+        r = f(a)
+        E.axiom(Val.is_VBytes(r))
+        return I.T(r)
+    M[_b64.b64decode] = m_b64decode
+
+    def m_strptime(E, args, kw):
+        """datetime.strptime (axiom TS): TypeError unless both arguments are str,
+        ValueError when the text does not match the format"""
+        a, f = E.lift(args[0]), E.lift(args[1])
+        E.fail_if(z3.Not(z3.And(Val.is_VStr(a), Val.is_VStr(f))), TypeError, 'strptime() argument must be str')
+        okf = z3.Function('spec_strptime_ok', vals.VS, vals.VS, z3.BoolSort())
+        E.fail_if(z3.Not(okf(a, f)), ValueError, 'time data does not match format')
+        g = z3.Function('spec_strptime_val', vals.VS, vals.VS, vals.VS)
+        r = g(a, f)
+        E.axiom(Val.is_VDatetime(r))
+        return I.T(r)
+    M[_dt.datetime.strptime] = m_strptime
+
     def m_re_compile(E, args, kw):
         if len(args) != 1 or kw:
             raise I.Unsupported('re.compile with flags')
@@ -1650,6 +1684,9 @@ def call_method(E, recv, name, args, kwargs):
             return I.C(tt.startswith(ta) if name == 'startswith' else tt.endswith(ta))
         f = z3.Function('StartsWith' if name == 'startswith' else 'EndsWith', vals.STR, vals.STR, z3.BoolSort())
         return E.bool_sv(f(pt, pa))
+    if name == 'isascii':
+        f = z3.Function('StrIsAscii', vals.STR, z3.BoolSort())
+        return E.bool_sv(f(V.s(t)))
     if name == 'encode':
         # str.encode('utf-8'): may raise UnicodeEncodeError (a ValueError) for lone surrogates
         f = z3.Function('Utf8', vals.STR, vals.STR)
